@@ -104,6 +104,15 @@ def state(draw, above=True):
     pos = [draw(gens.fl(-100.0, 100.0)), draw(gens.fl(-100.0, 100.0)), alt]
     vel = draw(gens.vector(3, scales=(-2, -1, 0, 0, 1)))
     rot = draw(gens.rotation(strata=("zero", "tiny", "mid", "mid", "mid", "nearpi", "pi", "beyond")))
+    if draw(st.integers(0, 5)) == 0:
+        # nose straight up / down (inside and around the Euler gimbal band) with arbitrary roll and yaw
+        delta = draw(st.sampled_from([0.0, 1e-5, 2e-4, 5e-4, 9e-4, 1.1e-3, 5e-3]))
+        sg = draw(st.sampled_from([1.0, -1.0]))
+        Rg = ref.euler321_to_R([draw(gens.fl(-PI, PI)), sg * (PI / 2 - delta), draw(gens.fl(-PI, PI))])
+        w = ref.log_SO3(Rg)
+        th = float(np.linalg.norm(w))
+        rot = {"axis": [float(a) for a in (w / th)] if th > 1e-9 else [1.0, 0.0, 0.0], "angle": th, "stratum": "gimbal",
+               "sign": int(draw(st.sampled_from([1, -1]))), "shadow": False}
     om = draw(gens.vector(3, scales=(-2, -1, 0, 0, 1)))
     mot = [draw(gens.fl(0.0, 1500.0)) for _ in range(4)]
     if draw(st.integers(0, 5)) == 0:
@@ -128,7 +137,8 @@ def nontrivial(case):
 
 
 def classify(case):
-    return ["defaults" if case.get("defaults") else "generated-params", "qsign:%d" % case["s"]["rot"]["sign"]]
+    return ["defaults" if case.get("defaults") else "generated-params", "qsign:%d" % case["s"]["rot"]["sign"],
+            "att:" + ("gimbal" if case["s"]["rot"]["stratum"] == "gimbal" else "other")]
 
 
 def evalf(case, x=None):
@@ -308,6 +318,6 @@ def build(tier):
             "symmetric frame: equal arms at 90 degrees, opposite rotors spin the same way",
             "tolerances are relative to the magnitude of the terms in each balance (1e-10 force, 1e-9 moment)",
         ],
-        "require_classes": {"equivariance": ["above", "on/below ground"], "motor_lag": ["spinup", "spindown", "equal"]},
+        "require_classes": {"wrench_accel_gyro": ["att:gimbal"], "freefall": ["att:gimbal"], "equivariance": ["above", "on/below ground"], "motor_lag": ["spinup", "spindown", "equal"]},
         "matchers": {},
     }
